@@ -1,4 +1,5 @@
 """C15 — contracts on pdb2pqr/quatfit.py (rigid-body fitting, axis rotations)."""
+import math
 from pyvc.api import (NpVec, Const, DictOf, Enum, Int, Items, ListOf, Loop, Named, Obj, Opt, Real, Ref,
                       Str, TupleOf, contract, harness, implies, forall)
 
@@ -103,6 +104,11 @@ contract(
         "dist2(result[0], result[1]) == dist2(refcoords[0], refcoords[1])",
         # proper (orientation preserving): the triple product with the axis is kept
         "dot(cross(result[0], result[1]), initcoords) == dot(cross(refcoords[0], refcoords[1]), initcoords)",
+        # ... by the REQUESTED angle, however small: the component perpendicular to the axis turns by `angle`
+        # (p'.p |a|^2 = (p.a)^2 + cos(angle) (|p|^2 |a|^2 - (p.a)^2)); the sense of rotation is bounded-checked
+        "forall(range(2), lambda i: dot(result[i], refcoords[i]) * dot(initcoords, initcoords) == "
+        "dot(refcoords[i], initcoords) * dot(refcoords[i], initcoords) + math.cos(math.pi * angle / 180.0) * "
+        "(dot(refcoords[i], refcoords[i]) * dot(initcoords, initcoords) - dot(refcoords[i], initcoords) * dot(refcoords[i], initcoords)))",
     ],
     modifies=[],
     returns=ListOf(V3(), 2),
